@@ -33,10 +33,10 @@ WITNESS = {
     "standin_histories_clean": ("src/storage_engine/mod.rs", "every clean history of length <= 3 (thorough 5) over {insert,delete} x 2 tuples + save/compact/restart steps, with and without a final save; one bulk history (4200 inserts, 1404 deletes)"),
     "standin_stratification": ("src/protocol/handler.rs", "validate_rules_stratification on all 262144 rule sets over 3 predicates (each ordered pair: no / positive / negated / both dependencies); Handler::query_program on 12 rule sets x every split of their clauses between persistent and session rules"),
     "standin_parse_all_first": ("src/protocol/handler.rs", "Handler::query_program: programs of 1..=3 statements from a pool of 9 (all of length <= 2, every 6th of length 3) x a malformed statement (those of 19 candidates that parse_statement rejects) at every position; 1/3 of the well-formed programs compared with statement-by-statement submission"),
-    "standin_incremental": ("src/storage_engine/mod.rs", "two StorageEngines (incremental maintenance enabled before step 0/1/2 vs never): every history of length <= 2 and every 3rd of length 3 (thorough: all of length <= 3, every 20th of length 4) over 10 steps (base inserts/deletes, rule registration incl. second clause, derived-on-derived and recursive rules, clause removal, rule drop) that registers a rule, answers for 3 derived relations compared after every step"),
+    "standin_incremental": ("src/storage_engine/mod.rs", "two StorageEngines (incremental maintenance enabled before step 0/1/2 vs never): every history of length <= 2 and every 3rd of length 3 (thorough: all of length <= 3, every 20th of length 4) over 11 steps (base inserts/deletes, rule registration incl. second clause, derived-on-derived (with and without a base atom) and recursive rules, clause removal, rule drop) that registers a rule, from an empty or a pre-populated base relation, answers for 4 derived relations compared after every step"),
     "standin_hnsw_history": ("src/hnsw_index.rs", "HnswIndex (Euclidean, dim 2, <= 7 entries): every history of length <= 4 (thorough 5) over 8 steps (insert/update 3 ids, delete 2 ids, delete an absent id, rebuild, save+load) from 2 starting contents; model comparison after every step"),
-    "standin_authz_programs": ("src/protocol/handler.rs", "Handler::execute_program as 3 non-admin users without write permission on kg1: 7 state-changing statements x 9 program shapes (alone, around queries, comments, blank lines, session rule, two writes, leading whitespace, continuation line); control: a KG editor can write"),
-    "standin_internal_kg": ("src/protocol/handler.rs", "Handler::execute_program as 3 non-admin users: 7 programs with the internal knowledge graph as target, 7 programs naming it in .kg use/create/drop alone and inside multi-line programs"),
+    "standin_authz_programs": ("src/protocol/handler.rs", "Handler::execute_program as 3 non-admin users without write permission on kg1: 7 state-changing statements x 14 program shapes (alone, around queries, comments, blank lines, session rule, two writes, leading whitespace, continuation line, after a query with trailing comment, after read-only meta commands); 7 x 3 programs by an editor of another graph that `.kg use` the protected graph; control: a KG editor can write"),
+    "standin_internal_kg": ("src/protocol/handler.rs", "Handler::execute_program as 3 non-admin users: 7 programs with the internal knowledge graph as target, 12 programs naming it in .kg use/create/drop alone and inside multi-line programs (incl. after read-only meta commands and trailing comments)"),
     "standin_histories_dirty": ("src/storage_engine/mod.rs", "every history of length <= 3 over 2 tuples with a re-insert or an absent delete, save, restart"),
 }
 
